@@ -26,6 +26,7 @@ from props import c14gen as G
 
 PROP = 'C14'
 LEVELS = [0, 2]
+TIMEOUT = 6 * 3600      # per batch; only reached on a badly overloaded machine
 PROVED = {'case', 'blank-add', 'blank-remove', 'comment-eol-add', 'comment-remove', 'comment-text',
           'line-add', 'line-remove', 'relop'}
 STYLE_PROVED = {'case-kw', 'case-id', 'blank-add', 'blank-remove', 'indent', 'relop', 'empty-line',
@@ -450,7 +451,7 @@ def main(tier, seed):
     csrc = [c['src'] for c in corpus]
     ctx.bump('corpus-programs', len(csrc))
 
-    ngen = 40 if quick else 160
+    ngen = 40 if quick else 120
     gens = [G.generate(i) for i in range(ngen)]
     gbase = [G.render(lines, G.Style()) for lines, _ in gens]
     for _, kinds in gens:
@@ -479,7 +480,7 @@ def main(tier, seed):
         style_cases.append({'i': -1, 'kinds': kinds, 'a': a, 'b': b})
 
     # ---- suite canon
-    step = 5 if quick else 1
+    step = 5 if quick else 2
     if want('canon'):
         texts = list(csrc) + list(gbase)
         texts += [c['b'] for c in style_cases[::step]]
@@ -493,7 +494,7 @@ def main(tier, seed):
                     ctx.report('C14/canon-not-idempotent', {'suite': 'canon', 'text': t, 'canon': cn,
                                                             'canon2': cn2}, False)
                 cases.append({'a': t, 'b': cn, 'levels': LEVELS})
-            res = vlib.run_impl('lexfn.compare', cases)
+            res = vlib.run_impl('lexfn.compare', cases, timeout=TIMEOUT)
             if not worker_failed(ctx, 'canon', res):
                 nacc = 0
                 for c, r in zip(cases, res):
@@ -514,7 +515,7 @@ def main(tier, seed):
     if want('style'):
         cases = [{'a': c['a'], 'b': c['b'], 'levels': LEVELS, 'want_trace': True, 'max_ticks': 20000}
                  for c in style_cases]
-        res = vlib.run_impl('lexfn.compare', cases)
+        res = vlib.run_impl('lexfn.compare', cases, timeout=TIMEOUT)
         if not worker_failed(ctx, 'style', res):
             for c, r in zip(style_cases, res):
                 for k in c['kinds']:
@@ -546,7 +547,7 @@ def main(tier, seed):
                     f'canon in the model')
 
     # ---- suite rewrite (token-level compositions on real texts)
-    nvar = 1 if quick else 4
+    nvar = 1 if quick else 3
     if want('rewrite'):
         accepted = [t for t in csrc]          # rejected programs stay in: verdict must not change
         base_texts = accepted + gbase
@@ -565,7 +566,7 @@ def main(tier, seed):
                     text, kinds = compose(lr, rng, pool, rng.randint(1, 5))
                     if kinds:
                         rcases.append({'a': t, 'b': text, 'kinds': kinds, 'proved': proved_only})
-            res = vlib.run_impl('lexfn.compare', [{'a': c['a'], 'b': c['b'], 'levels': LEVELS} for c in rcases])
+            res = vlib.run_impl('lexfn.compare', [{'a': c['a'], 'b': c['b'], 'levels': LEVELS} for c in rcases], timeout=TIMEOUT)
             if not worker_failed(ctx, 'rewrite', res):
                 for c, r in zip(rcases, res):
                     for k in c['kinds']:
@@ -612,7 +613,7 @@ def main(tier, seed):
                     ctx.report('C14/data-payload-model-differs', {'src': s, 'model_payload': mp}, False)
                     continue
                 dcases.append({'src': s, 'payload': mp})
-            res = vlib.run_impl('lexfn.data_items', dcases)
+            res = vlib.run_impl('lexfn.data_items', dcases, timeout=TIMEOUT)
             if not worker_failed(ctx, 'data', res):
                 for c, r in zip(dcases, res):
                     comp = r['compiled']
@@ -673,8 +674,16 @@ def replay(path):
         print('reproduces' if bad else 'does not reproduce')
         return 1 if bad else 0
     if 'src' in det:
-        print(det['src'])
-        print(json.dumps(det, indent=1)[:2000])
-        return 1
+        exe = vlib.build_model('Lex')
+        lr = vlib.run_model(exe, [[2, det['src']]])[0]
+        payload = l2s(lr[1][0][1][2]) if lr[1] and lr[1][0][1][0] == 7 else None
+        print('--- text'); print(det['src']); print('--- payload (model lexer):', repr(payload))
+        r = vlib.run_impl('lexfn.data_items', [{'src': det['src'], 'payload': payload or ''}], timeout=TIMEOUT)[0]
+        print(json.dumps(r, indent=1)[:2000])
+        verb = r['verbatim']
+        exp = {'err': 'syntax:'} if verb is None else {'items': [verb]}
+        bad = r['compiled'] != exp
+        print('reproduces' if bad else 'does not reproduce')
+        return 1 if bad else 0
     print(json.dumps(d, indent=1)[:4000])
     return 0
